@@ -24,7 +24,7 @@ RULE = ("cases from rng(seed, 11, 0, i), mode = i mod 5: (0) SE(2) chain and (1)
         "or an optimizer run with >= 1 completed iteration or a loader/normalize case with a non-canonical input.")
 REQ = ["eval:se2-angle-in-range", "eval:se2-angle-congruent", "eval:se3-unit-norm", "eval:normalize-postcondition", "eval:optimizer-vertex-invariant", "eval:loader-angle", "mode:0", "mode:1",
        "mode:2", "mode:3", "mode:4", "class:angle_huge", "class:angle_nearpi", "class:op:boxplus", "class:op:inverse", "class:op:sub", "class:diverging_run", "class:single_call_run_10+_iterations", "class:iteration_by_iteration_run", "class:normalize_input:unit_wneg",
-       "class:normalize_input:almost_unit_wneg", "class:normalize_again_after_in_place_write", "class:same_value_earlier_in_narrower_type"]
+       "class:normalize_input:almost_unit_wneg", "class:normalize_again_after_in_place_write", "class:same_value_earlier_in_narrower_type", "class:identity_object_written_by_its_owner"]
 PLAN = {
     "quick": {"cases": 1000, "soft_s": 70, "min_nontrivial": 300, "require": REQ},
     "thorough": {"cases": 12000, "soft_s": 1500, "min_nontrivial": 3000, "require": REQ},
@@ -94,6 +94,15 @@ def se2_chain(ctx, rng, L):
                 P2 = P + d
                 check_se2(ctx, P2, th + Decimal(a), abs(float(th)) + abs(a), "boxplus", {"a": float(th), "delta": a})
                 ctx.count("class:op:boxplus")
+            elif op == "constructor" and rng.random() < 0.15:
+                # the identity element, obtained from the library; an earlier identity object may have been written to by its owner
+                I = M.PoseSE2.identity()
+                ctx.check("se2-angle-in-range", float(I[2]) == 0.0 and float(I[0]) == 0.0 and float(I[1]) == 0.0, {"op": "identity()"}, {"identity": M.fl(I)}, None)
+                P2 = P + I
+                check_se2(ctx, P2, th, abs(float(th)), "add identity()", {"a": float(th)})
+                I[2] = float(rng.uniform(-3, 3))  # the caller owns what it was handed and uses it as a start value
+                I[0] = 7.0
+                ctx.count("class:identity_object_written_by_its_owner")
             elif op == "constructor":
                 if rng.random() < 0.3:
                     # history: the same numeric value was passed earlier in another floating type (only the float64 call below is judged)
@@ -149,6 +158,13 @@ def se3_chain(ctx, rng, L):
             elif op == "inverse":
                 P2 = P.inverse
                 ctx.count("class:op:inverse")
+            elif op == "copy" and rng.random() < 0.5:
+                I = M.PoseSE3.identity()
+                ctx.check("se3-unit-norm", M.fl(I) == [0.0, 0.0, 0.0, 0.0, 0.0, 0.0, 1.0], {"op": "identity()"}, {"identity": M.fl(I)}, None)
+                P2 = P + I
+                I[3:] = [0.0, 0.0, 3.0, 4.0]  # the caller owns what it was handed
+                I[0] = 7.0
+                ctx.count("class:identity_object_written_by_its_owner")
             elif op == "copy":
                 P2 = P.copy()
             else:
